@@ -60,7 +60,7 @@ CLAIMS = {
         "technique": "Lean 4 proof + differential correspondence over a family of user-defined types",
     },
     "C17": {
-        "text": "Lean 4 theorems: parse_spec (for any content bytes: text = bytes before the first NUL if valid UTF-8, MissingNul iff no NUL inside the declared content, Utf8 otherwise; text and terminator inside the content), roundtrip (for EVERY Lean String without NUL - valid UTF-8 by construction like &str - the stored content is s followed by exactly one NUL and parses back to s, whatever bytes follow). Tied to /repo by SWEEP over all strings of length 0..3 over an 8-symbol alphabet with NUL / letter in the padding, random longer byte strings incl. overlongs/surrogates, declared sizes cutting the content, and CTOR cases for the three constructors; Python oracle with Python's UTF-8 decoder as third opinion.",
+        "text": "CONSTRUCTOR -> ACCESSOR round trip: string_tag_roundtrip / module_tag_roundtrip: for EVERY Lean String without NUL the constructor image has size fixed+|s|+1, exactly one NUL, and the accessor (checked slice [fixed,size) of the declared bytes + parse) returns s. Lean 4 theorems: parse_spec (for any content bytes: text = bytes before the first NUL if valid UTF-8, MissingNul iff no NUL inside the declared content, Utf8 otherwise; text and terminator inside the content), roundtrip (for EVERY Lean String without NUL - valid UTF-8 by construction like &str - the stored content is s followed by exactly one NUL and parses back to s, whatever bytes follow). Tied to /repo by SWEEP over all strings of length 0..3 over an 8-symbol alphabet with NUL / letter in the padding, random longer byte strings incl. overlongs/surrogates, declared sizes cutting the content, and CTOR cases for the three constructors; Python oracle with Python's UTF-8 decoder as third opinion.",
         "design": "DESIGN.md section 6 (C17)",
         "note": "trusted: Lean kernel + propext/Classical.choice/Quot.sound; the hand-written model (Mb2.Tags/Mb2.Sweep) outside the generated cases; rustc layout/codegen, core::str::from_utf8 and CStr (modelled by Lean's ByteArray.validateUTF8 / first-NUL search, compared on generated inputs); the Python oracle (vlib/oracle.py) as independent transcription of the property; harness, guard pages; agreement of Lean's, Rust's and Python's notion of well-formed UTF-8 is sampled, not proved",
         "technique": "Lean 4 proof (round trip over all Strings) + differential correspondence + property oracle",
@@ -72,22 +72,22 @@ CLAIMS = {
         "technique": "Lean 4 proof + differential correspondence + extent oracle on the implementation",
     },
     "C04": {
-        "text": "Lean 4 theorems: getTag_first (the getter returns the first tag of the walk with the type number, nothing when the complete walk has none), layout_eq_spec / fixed_size_eq_spec (struct field lists transcribed from the Rust sources = the specification's offset tables), field_decodes (every plain accessor returns the little-endian value at the specified offset, no panic, inside the tag), efi_map_withheld, fb_unknown_type / fb_known_type (all type bytes), rsdp2_long_invalid. Tied to /repo by SWEEP over conformant regions of all 22 kinds (random = byte-marked fields, duplicates, orders), dev AND release; an independent Python oracle decodes every field (incl. VBE blocks, memory-map entries, colour info, RSDP validity, module ranges) from the raw bytes at the specification's offsets.",
+        "text": "SOURCE-DERIVED tie (translator tools/gen_source.py -> Mb2/Gen/Source.lean, regenerated on every run): Layout.ids_match / base_sizes_match / fixed_parts_match / accessors_match / direct_fields_match / vbe_*_matches prove by `decide` that the repr(C) layout of every tag struct in the CURRENT Rust source, its Tag::ID, its BASE_SIZE and the field each accessor returns equal the model tables, which layout_eq_spec ties to the specification tables. Lean 4 theorems: getTag_first (the getter returns the first tag of the walk with the type number, nothing when the complete walk has none), layout_eq_spec / fixed_size_eq_spec (struct field lists transcribed from the Rust sources = the specification's offset tables), field_decodes (every plain accessor returns the little-endian value at the specified offset, no panic, inside the tag), efi_map_withheld, fb_unknown_type / fb_known_type (all type bytes), rsdp2_long_invalid. Tied to /repo by SWEEP over conformant regions of all 22 kinds (random = byte-marked fields, duplicates, orders), dev AND release; an independent Python oracle decodes every field (incl. VBE blocks, memory-map entries, colour info, RSDP validity, module ranges) from the raw bytes at the specification's offsets.",
         "design": "DESIGN.md section 6 (C04)",
         "note": "trusted: Lean kernel + propext/Classical.choice/Quot.sound; the hand-written model (Mb2.Tags/Mb2.Sweep) outside the generated cases; rustc layout/codegen, core::str::from_utf8 and CStr (modelled by Lean's ByteArray.validateUTF8 / first-NUL search, compared on generated inputs); the Python oracle (vlib/oracle.py) as independent transcription of the property; harness, guard pages; VBE / memory-map / RSDP / SMBIOS field tables are checked by the Python oracle and the correspondence, the Lean theorem covers the plain-field kinds",
-        "technique": "Lean 4 proof + differential correspondence + independent decoding oracle",
+        "technique": "Lean 4 proof + differential correspondence + independent decoding oracle + source-to-Lean translator for struct layouts / IDs / accessors",
     },
     "C01": {
-        "text": "Lean 4 theorems that no modelled entry point can read outside its permitted extent: walk_no_fault, cast_no_fault, getTag_no_fault (never `oob`/`ub`), view_inside_tag (every typed view starts at the tag's aligned offset, spans exactly roundUp8(size) bytes, inside the tag area), fields_no_fault, mmap_area_inside, fb_byte_no_fault, byteSum_no_fault / rsdp2_no_fault, efi_no_fault, elf_no_fault, walk_bounded (termination bounds). Tied to /repo by SWEEP = load + every getter/accessor/iterator/Debug under catch_unwind on the adversarial streams, region flush against PROT_NONE pages (end and start placement), two poison fills, crash detection per case; the Python oracle checks that every returned extent lies inside the tag it came from. PARTIAL: which bytes the machine code loads is a runtime fact - the theorem is about the model; guard pages, poison and extents connect it to the binary.",
+        "text": "END-TO-END Lean 4 theorem sweep_no_fault / sweepLoaded_no_fault: for EVERY memory content whose declared region is readable, the complete sweep of load + tag walk + all 22 typed getters + every field accessor + string / SMBIOS / palette slices (taken by checked slices from the tag's DECLARED size) + the memory-map, EFI-map, ELF-section and module iterators drained + both RSDP checksums + deprecated elf_sections() + Debug contains no out-of-extent read (`oob`) and no undefined enum value (`ub`) - stated about the very function (`Sweep.sweep`) whose rendering the correspondence check compares with the real code on every SWEEP case; the harness additionally cross-checks every iterator through nth/skip/count/last/step_by/size_hint/clones (iterator-protocol probes). Supporting theorems: Lean 4 theorems that no modelled entry point can read outside its permitted extent: walk_no_fault, cast_no_fault, getTag_no_fault (never `oob`/`ub`), view_inside_tag (every typed view starts at the tag's aligned offset, spans exactly roundUp8(size) bytes, inside the tag area), fields_no_fault, mmap_area_inside, fb_byte_no_fault, byteSum_no_fault / rsdp2_no_fault, efi_no_fault, elf_no_fault, walk_bounded (termination bounds). Tied to /repo by SWEEP = load + every getter/accessor/iterator/Debug under catch_unwind on the adversarial streams, region flush against PROT_NONE pages (end and start placement), two poison fills, crash detection per case; the Python oracle checks that every returned extent lies inside the tag it came from. PARTIAL: which bytes the machine code loads is a runtime fact - the theorem is about the model; guard pages, poison and extents connect it to the binary.",
         "design": "DESIGN.md section 6 (C01), section 9",
         "note": "trusted: Lean kernel + propext/Classical.choice/Quot.sound; the hand-written model (Mb2.Tags/Mb2.Sweep) outside the generated cases; rustc layout/codegen, core::str::from_utf8 and CStr (modelled by Lean's ByteArray.validateUTF8 / first-NUL search, compared on generated inputs); the Python oracle (vlib/oracle.py) as independent transcription of the property; harness, guard pages; Debug output is observed as panic / no panic only",
         "technique": "Lean 4 proof (no-fault theorems over a checked-read memory model) + differential correspondence + guard-page / poison detectors",
     },
     "C07": {
-        "text": "Lean 4 theorems over the constructor model ctorImpl (struct field order, the size constant each constructor writes, new_boxed for heap-built tags): sized_ctor_exact (all 13 fixed-size information-tag constructors, ALL argument values: type = the kind's ID = specification number, size = Spec.fixedSize = exact unpadded byte count = number of initialised bytes, header decodes, size_of_val = size rounded up to 8), boxed_ctor_exact (all content slices: exact size, no gaps, never panics), cmdline/loader size = fixed + |s| + 1 with exactly one NUL (and unchanged when already NUL-terminated), bootdev_readback. Tied to /repo by CTOR cases for all 34 public constructors of both crates (boundary + random argument blobs, every content-length residue), dev+release; an independent Python transcription of the specification's encoding is compared with the REAL constructors' bytes, type, size, alignment and as_bytes() on every case.",
+        "text": "BYTE-EXACT for ALL argument values: contiguous_ctor_bytes (image = header(type,size) ++ arguments for the ten fixed-size tags), contiguous_ctor_readback (every field of the SPECIFICATION's layout table read from the image is the argument at that position), placed_ctor_readback (through the accessor path on a loaded region), module_ctor / smbios_ctor / network_ctor / elf_ctor (heap-built: header(type, 8+|content|) ++ content in specification order); Layout.ids_match / hids_match: the ID constants in the CURRENT source are the specification's numbers (translator, regenerated every run). Lean 4 theorems over the constructor model ctorImpl (struct field order, the size constant each constructor writes, new_boxed for heap-built tags): sized_ctor_exact (all 13 fixed-size information-tag constructors, ALL argument values: type = the kind's ID = specification number, size = Spec.fixedSize = exact unpadded byte count = number of initialised bytes, header decodes, size_of_val = size rounded up to 8), boxed_ctor_exact (all content slices: exact size, no gaps, never panics), cmdline/loader size = fixed + |s| + 1 with exactly one NUL (and unchanged when already NUL-terminated), bootdev_readback. Tied to /repo by CTOR cases for all 34 public constructors of both crates (boundary + random argument blobs, every content-length residue), dev+release; an independent Python transcription of the specification's encoding is compared with the REAL constructors' bytes, type, size, alignment and as_bytes() on every case.",
         "design": "DESIGN.md section 6 (C07)",
         "note": "trusted: Lean kernel + propext/Classical.choice/Quot.sound; the hand-written model (Mb2.Build) outside the generated cases; rustc layout/codegen; Box / allocator behaviour (observed through a tracking global allocator); the Python oracle (vlib/oracle.py: expected_ctor etc.) as independent transcription of the specification; harness; padding bytes behind the declared size are uninitialised in stack-built tags and not compared",
-        "technique": "Lean 4 proof + differential correspondence + independent encoding oracle",
+        "technique": "Lean 4 proof + differential correspondence + independent encoding oracle + source-to-Lean translator for IDs / BASE_SIZE",
     },
     "C16": {
         "text": "Lean 4 theorems: partition_irrelevant (new_boxed depends on the slices only through their concatenation), newBoxed_generic_tag (for any header image and content: header with size = 8 + total, content without gaps, 8-aligned allocation of the total rounded up to 8, never panics), dealloc_eq_alloc (whenever new_boxed returns, the size handed to dealloc equals the allocation size, for every header kind and target type), clone_identity (cloning a tag of any size >= 8 gives the same declared size and the same bytes up to it: padding is not cloned). Tied to /repo by BOXED cases (all content lengths 0..24, all cut points / random partitions into 0..4 slices, three header kinds) and CLONE cases (12 dynamically sized kinds of both crates x content lengths 0..17) with a tracking global allocator recording allocation and deallocation layouts. PARTIAL: `freed exactly once` is Box semantics, observed (one dealloc event with the allocation layout), not modelled.",
@@ -108,13 +108,13 @@ CLAIMS = {
         "technique": "Lean 4 proof + exhaustive (2^10 x 2) differential correspondence + oracle",
     },
     "C11": {
-        "text": "Lean 4 theorems: header_accessors (for a valid header the four accessors return the stored magic, architecture, length, checksum), tag_iter_is_spec_walk (the header-tag iterator = the specification walk from offset 16 to the declared length), hgetTag_first (first tag of the type in walk order / nothing when absent), layout_eq_spec + field_decodes (every field accessor of every header-tag kind = little-endian value at the specified offset, inside the tag), info_request_count ((size-8)/4 words, remainder = controlled panic). Tied to /repo by HSWEEP over valid headers of all 11 kinds (random = byte-marked fields, duplicates, orders, all request-list lengths 0..8, both architectures), dev+release; Python oracle decodes at the specification's offsets.",
+        "text": "SOURCE-DERIVED tie (translator, regenerated every run): Layout.hids_match / hbase_sizes_match / hfixed_parts_match / haccessors_match / header_fields_match prove that the layout, Tag::ID, BASE_SIZE and accessor fields of the eleven header-tag structs and the two headers in the CURRENT source equal the model tables (= the specification tables by layout_eq_spec). Lean 4 theorems: header_accessors (for a valid header the four accessors return the stored magic, architecture, length, checksum), tag_iter_is_spec_walk (the header-tag iterator = the specification walk from offset 16 to the declared length), hgetTag_first (first tag of the type in walk order / nothing when absent), layout_eq_spec + field_decodes (every field accessor of every header-tag kind = little-endian value at the specified offset, inside the tag), info_request_count ((size-8)/4 words, remainder = controlled panic). Tied to /repo by HSWEEP over valid headers of all 11 kinds (random = byte-marked fields, duplicates, orders, all request-list lengths 0..8, both architectures), dev+release; Python oracle decodes at the specification's offsets.",
         "design": "DESIGN.md section 6 (C11)",
         "note": "trusted: Lean kernel + propext/Classical.choice/Quot.sound; the hand-written model (Mb2.HTags / Mb2.Header) outside the generated cases; rustc layout/codegen; the Python oracle as independent transcription of the specification; harness, guard pages",
-        "technique": "Lean 4 proof + differential correspondence + independent decoding oracle",
+        "technique": "Lean 4 proof + differential correspondence + independent decoding oracle + source-to-Lean translator for struct layouts / IDs / accessors",
     },
     "C09": {
-        "text": "Lean 4 theorems under the property's hypothesis (enumerated fields hold declared values; the model answers `ub` otherwise and such cases are recognised and set aside): walk_no_fault, bad_size_panics (a tag size below 8 or leaving the declared length is a controlled panic in BOTH profiles), cast_no_fault, hgetTag_no_fault, view_inside_tag (every typed view spans exactly the tag's rounded extent inside the declared length), inforeq_words_inside, walk_bounded; loading itself never panics/faults by C10.hload_eq. Tied to /repo by HSWEEP over adversarial headers (all kinds x sizes 0..beyond the region, corrupted lengths, missing end tag) with in-range enumerated fields, region flush against a PROT_NONE page, two poison fills, crash detection; Python oracle checks every view/extent. PARTIAL as C01: the loads the machine code performs are a runtime fact.",
+        "text": "END-TO-END Lean 4 theorem hsweep_no_fault / hsweepLoaded_no_fault: under the property's hypothesis on the enumerated fields (EnumsDefined) the complete header sweep (load, walk, ten typed getters, all field accessors, information-request list, Debug) - the very function `HSweep.hsweep` the correspondence compares with the real code - contains no `oob` and no `ub`, for every memory content. Supporting theorems: Lean 4 theorems under the property's hypothesis (enumerated fields hold declared values; the model answers `ub` otherwise and such cases are recognised and set aside): walk_no_fault, bad_size_panics (a tag size below 8 or leaving the declared length is a controlled panic in BOTH profiles), cast_no_fault, hgetTag_no_fault, view_inside_tag (every typed view spans exactly the tag's rounded extent inside the declared length), inforeq_words_inside, walk_bounded; loading itself never panics/faults by C10.hload_eq. Tied to /repo by HSWEEP over adversarial headers (all kinds x sizes 0..beyond the region, corrupted lengths, missing end tag) with in-range enumerated fields, region flush against a PROT_NONE page, two poison fills, crash detection; Python oracle checks every view/extent. PARTIAL as C01: the loads the machine code performs are a runtime fact.",
         "design": "DESIGN.md section 6 (C09), section 9",
         "note": "trusted: Lean kernel + propext/Classical.choice/Quot.sound; the hand-written model (Mb2.HTags / Mb2.Header) outside the generated cases; rustc layout/codegen; the Python oracle as independent transcription of the specification; harness, guard pages",
         "technique": "Lean 4 proof (no-fault theorems over a checked-read memory model) + differential correspondence + guard-page / poison detectors",
